@@ -75,6 +75,15 @@ def map_value_contract(engine, call, st, text, args, kwargs):
     return out
 
 
+def skip_selection_contract(engine, call, st, text, args, kwargs):
+    """_skip_selection(selection, variables) -> bool, total: both answers are followed, each with its own event, so that clauses speak about the
+    answer itself and not about the spelling of the test that consumed it"""
+    yes, no = st.fork("skip:yes"), st.fork("skip:no")
+    yes.emit("skip?=yes")
+    no.emit("skip?=no")
+    return [(yes, "val", T.Const(True)), (no, "val", T.Const(False))]
+
+
 def done_callback_contract(engine, call, st, text, args, kwargs):
     """ASSUMED contract of concurrent.futures.Future.add_done_callback(fn): fn is called exactly once, with the future, when it is done
     (sequentialised: here).  An exception escaping fn is logged and dropped by the Future machinery - modelled as the path's outcome so that
@@ -802,22 +811,23 @@ def _default_value_clauses():
 def _collect_fields_clauses():
     CONTRIB = ("keep", "merge", "mark")
 
-    def skip_facts(p):
-        return [v for t, v in p.facts if t.startswith("_skip_selection(")]
+    def answers(p):
+        return [e for e in p.events if e.startswith("skip?=")]
 
     def only_unskipped(p):
         # a selection excluded by @skip / @include contributes nothing: no field kept, nothing merged, and - what a later spread of the same fragment
         # in this selection set depends on - the fragment is not marked as visited
         if not any(e in CONTRIB or e.startswith("rec(") for e in p.events):
             return None
-        f = skip_facts(p)
-        return bool(f) and not any(f)
+        first = min(i for i, e in enumerate(p.events) if e in CONTRIB or e.startswith("rec("))
+        before = [e for e in p.events[:first] if e.startswith("skip?=")]
+        return before == ["skip?=no"] and "skip?=yes" not in p.events
 
     def tested_once(p):
-        if "for[selections]{" not in p.events or p.events.count("for[selections]{") != 1:
+        if p.events.count("for[selections]{") != 1:
             return None
         inside = [e for e in p.events if e not in ("for[selections]{", "}", "}!")]
-        return None if not inside else inside.count("skip?") == 1 and inside[0] == "skip?"
+        return None if not inside else len(answers(p)) == 1
 
     def merged_once(p):
         rec = [e for e in p.events if e.startswith("rec(")]
@@ -835,8 +845,9 @@ def _collect_fields_clauses():
         return p.events.count("keep") == 1 and not any(e.startswith("rec(") or e in ("merge", "mark") for e in p.events)
 
     return [
-        ("excluded-selections-contribute-nothing", "a selection switched off by @skip / @include keeps no field, merges nothing and does not mark its fragment as visited", only_unskipped),
-        ("directives-tested-first", "every selection's @skip / @include is evaluated exactly once, before anything else is done with it", tested_once),
+        ("excluded-selections-contribute-nothing", "a selection switched off by @skip / @include keeps no field, merges nothing and does not mark its fragment as visited; "
+                                                   "whatever a selection contributes, it contributes after its directives said 'included'", only_unskipped),
+        ("directives-tested-once", "every selection's @skip / @include is evaluated exactly once", tested_once),
         ("fragment-collected-and-merged-once", "an included fragment's selection set is collected by one recursive call whose result is merged once", merged_once),
         ("visited-set-is-shared", "recursive calls work on the caller's set of visited fragments", shared_visited),
         ("field-kept-once", "an included field is appended once to its response-name group, and nothing else happens for it", field_kept_once),
@@ -1170,14 +1181,16 @@ TRACE_CONTRACTS = [
                   ("records-exactly-one-error", "every call that returns has recorded exactly one error", lambda p: None if p.outcome != "return" else count(p.events, "record") == 1)],
          assumes=[]),
     dict(id="collect_fields", target="py_gql.utilities.collect_fields:collect_fields", props=["C04"],
-         config=Config(events=[(r"^_skip_selection$", "skip?"), (r"_seen_fragments\.add$", "mark"), (r"^_merge$", "merge"), (r"\.append$", "keep"),
+         config=Config(events=[(r"_seen_fragments\.add$", "mark"), (r"^_merge$", "merge"), (r"\.append$", "keep"),
                                (r"^collect_fields$", lambda call, args, kwargs: "rec(%s)" % __import__("ast").unparse(call.args[-1]) if call.args else "rec(?)")],
-                       nothrow=[r"^_skip_selection$", r"^_merge$", r"\.append$", r"\.add$", r"^_fragment_type_applies$", r"^OrderedDict$"]),
+                       nothrow=[r"^_merge$", r"\.append$", r"\.add$", r"^_fragment_type_applies$", r"^OrderedDict$"],
+                       callbacks=[(r"^_skip_selection$", skip_selection_contract)]),
          clauses=_collect_fields_clauses(), assumes=["_skip_selection / _fragment_type_applies / _merge do not raise (directive arguments were validated)"]),
     dict(id="collect_fields_untyped", target="py_gql.utilities.collect_fields:collect_fields_untyped", props=["C19"],
-         config=Config(events=[(r"^_skip_selection$", "skip?"), (r"_seen_fragments\.add$", "mark"), (r"^_merge$", "merge"), (r"\.append$", "keep"),
+         config=Config(events=[(r"_seen_fragments\.add$", "mark"), (r"^_merge$", "merge"), (r"\.append$", "keep"),
                                (r"^collect_fields_untyped$", lambda call, args, kwargs: "rec(%s)" % __import__("ast").unparse(call.args[-1]) if call.args else "rec(?)")],
-                       nothrow=[r"^_skip_selection$", r"^_merge$", r"\.append$", r"\.add$", r"^OrderedDict$"]),
+                       nothrow=[r"^_merge$", r"\.append$", r"\.add$", r"^OrderedDict$"],
+                       callbacks=[(r"^_skip_selection$", skip_selection_contract)]),
          clauses=_collect_fields_clauses(), assumes=["_skip_selection / _merge do not raise"]),
     dict(id="MaxDepthValidationRule.__call__", target="py_gql.utilities.max_depth:MaxDepthValidationRule.__call__", props=["C19"],
          config=Config(events=[(r"^collect_fields_untyped$", "collect"), (r"^selected_fields$", "selected_fields"),
